@@ -56,6 +56,8 @@ def run(repo: Repo, rep: Report, tier: str) -> None:
                 fn = "unpack_typed_dict" if r.entry.family == "typeddict" else "unpack_named_tuple"
                 rep.violation("R03.4", f"{M_UNPACK}::{fn}", inst, "generated helper body differs from the documented behaviour", actual=got, reference=want)
     rep.floor("R03.4", 3)
+    if getattr(rep, "borrowed", False):
+        return  # another property borrows main-body rules only
     from ..core import regget
     regget.report(repo, rep, "R03.6", {"first-match-in-order", "raise-otherwise", "real-type"})
     # rules of sibling properties that are necessary conditions of this one as well (same rule ids)
@@ -67,6 +69,10 @@ def run(repo: Repo, rep: Report, tier: str) -> None:
     _hc2.report(repo, rep, "R09.6", _hc2.dataclass_fields_contract(repo), "mashumaro.core.meta.code.builder::CodeBuilder.dataclass_fields")
     from ..core import helper_contracts as _hc3
     _hc3.report(repo, rep, "R01.6", _hc3.type_param_collection_contract(repo), "mashumaro.core.meta.helpers::collect_type_params")
+    from ..core.report import Only as _OnlyX
+    from ..core import corpus as _corpusX
+    from . import c09 as _c09x
+    _c09x.run(repo, _OnlyX(rep, {"R09.2"}), tier)
 
 _ADDENDUM = ' R03.6: Registry.get contract as for C02. Borrowed: R01.2 (parse_timezone sign), R11.5 / R11.7 (scalar fast path and Literal branches of the union / literal unpackers).'
 EXPLANATION += _ADDENDUM
@@ -77,3 +83,6 @@ LEVEL_TEXT += _ADD3
 _ADD7 = ' Borrowed: R01.6.'
 EXPLANATION += _ADD7
 LEVEL_TEXT += _ADD7
+_ADD22 = ' Borrowed: R09.2 (the per-field block stores what the key rules prescribe).'
+EXPLANATION += _ADD22
+LEVEL_TEXT += _ADD22
